@@ -799,6 +799,15 @@ def check_model(ctx, viol, model, X, y, Xt, d, step):
     (mu, var), = model.predict(Xt.copy())
     mu, var = np.asarray(mu).reshape(-1), np.asarray(var).reshape(-1)
     K_impl = np.asarray(model.likelihood.kernel(X, X))
+    nl = float(np.reshape(model.states[0].neg_log_likelihood(), (-1,))[0])
+    return dense_compare(ctx, viol, step, X, y, Xt, ref, mval, noise, mu, var, nl, K_impl)
+
+
+def dense_compare(ctx, viol, step, X, y, Xt, ref, mval, noise, mu, var, nl, K_impl):
+    """(mu, var, nl) = dense posterior / likelihood of (X, y) for the Matern reference kernel [ref], mean [mval],
+    noise [noise]"""
+    from syne_tune.optimizer.schedulers.searchers.bayesopt.gpautograd.constants import MIN_POSTERIOR_VARIANCE
+    t = len(Xt)
     sig = find_sigsq(K_impl, noise)
     if sig is None:
         return
@@ -822,7 +831,6 @@ def check_model(ctx, viol, model, X, y, Xt, d, step):
     nll_r = 0.5 * (float(np.sum(R_ * alpha)) + logdet + na * math.log(2 * math.pi))
     tolN = (ce * (nrm(R_) * nrm(alpha) + na * (1 + abs(math.log(max(cond, 1.0))))) + 64 * EPS * abs(nll_r) * na
             + na * ktol * (nrm(alpha) ** 2 + na * ainv))
-    nl = float(np.reshape(model.states[0].neg_log_likelihood(), (-1,))[0])
     if sign > 0 and not abs(nl - nll_r) <= tolN:
         viol("the posterior state's negative log likelihood %r differs from the dense expression %r for the current "
              "parameters and data (tol %.3g)" % (nl, nll_r, tolN), "nlml", step)
@@ -1013,3 +1021,82 @@ def run_seq(ctx, spec, sq_cases=None, sq_meta=None):
         sq_meta.append(dict(kind="gps", spec=spec))
     ctx.count(("gps", spec), nontrivial=any(a_["op"] in ("set_params", "reset_params", "grow_recompute")
                                             for a_ in spec["ops"]))
+
+
+# --------------------------------------------------------------------------
+# the MCMC variant of the surrogate (gpr_mcmc.GPRegressionMCMC): one posterior state per retained
+# hyper-parameter sample; EVERY state must be the dense GP posterior for ITS OWN sample (predict,
+# neg_log_likelihood, and the parameters its kernel / mean report), after fit and after recompute_states
+# --------------------------------------------------------------------------
+def gen_mcmc(rng, k):
+    return dict(d=rng.randint(1, 2), n=rng.randint(5, 8), extra=rng.randint(1, 3), t=rng.randint(2, 4),
+                data_seed=rng.randrange(10 ** 9), n_samples=rng.choice([12, 14]), n_burnin=6, n_thinning=2)
+
+
+def run_mcmc(ctx, spec):
+    import random
+    from syne_tune.optimizer.schedulers.searchers.bayesopt.gpautograd.constants import MCMCConfig
+    from syne_tune.optimizer.schedulers.searchers.bayesopt.gpautograd.gpr_mcmc import GPRegressionMCMC
+    from syne_tune.optimizer.schedulers.searchers.bayesopt.gpautograd.kernel import Matern52
+    d, n, t = spec["d"], spec["n"], spec["t"]
+    drng = random.Random(spec["data_seed"])
+
+    def rows(k_):
+        Xn = np.array([[drng.random() for _ in range(d)] for _ in range(k_)])
+        yn = np.array([[math.sin(3.0 * Xn[i, 0]) + 0.05 * drng.gauss(0, 1) + 0.7] for i in range(k_)])
+        return Xn, yn
+    X, y = rows(n)
+    Xt = np.array([[drng.random() for _ in range(d)] for _ in range(t)])
+
+    def viol(what, quantity, step):
+        ctx.violation("property", "[MCMC surrogate, %s] %s" % (step, what), case=dict(kind="gpm", spec=spec),
+                      signature=dict(component="gp_mcmc_states", quantity=quantity, step=step.split(" state")[0]))
+    model = GPRegressionMCMC(build_kernel=lambda: Matern52(dimension=d, ARD=True),
+                             mcmc_config=MCMCConfig(n_samples=spec["n_samples"], n_burnin=spec["n_burnin"],
+                                                    n_thinning=spec["n_thinning"]),
+                             random_seed=spec["data_seed"] % 1000)
+
+    def decode(sample):
+        out, pos = dict(), 0
+        for param, encoding in model.likelihood.param_encoding_pairs():
+            vals = np.array(sample[pos:pos + encoding.dimension], dtype=float)
+            pos += encoding.dimension
+            for key in ("noise_variance", "covariance_scale", "inverse_bandwidths", "mean_value"):
+                if key in param.name:
+                    out[key] = vals
+        return out
+
+    def check_all(Xc, yc, step):
+        samples, states = model.samples, model.states
+        if states is None or len(states) != len(samples):
+            viol("%s states for %d retained samples" % (None if states is None else len(states), len(samples)),
+                 "state_count", step)
+            return
+        distinct = any(not np.allclose(samples[0], s_, rtol=1e-6) for s_ in samples[1:])
+        ctx.h("mcmc_samples_distinct", distinct)
+        preds = model.predict(Xt.copy())
+        for i, (sample, state) in enumerate(zip(samples, states)):
+            hp = decode(sample)
+            ibs = [float(v) for v in hp["inverse_bandwidths"]]
+            ref = RefMatern(ibs if len(ibs) == d else [ibs[0]] * d, float(hp["covariance_scale"][0]))
+            mval, noise = float(hp["mean_value"][0]), float(hp["noise_variance"][0])
+            st = "%s state %d of %d" % (step, i, len(states))
+            mu, var = state.predict(Xt.copy())
+            mu, var = np.asarray(mu).reshape(-1), np.asarray(var).reshape(-1)
+            nl = float(np.reshape(state.neg_log_likelihood(), (-1,))[0])
+            dense_compare(ctx, viol, st, Xc, yc, Xt, ref, mval, noise, mu, var, nl, ref.k(Xc, Xc))
+            pm, pv = preds[i]
+            if not (np.array_equal(np.asarray(pm).reshape(-1), mu) and np.array_equal(np.asarray(pv).reshape(-1), var)):
+                viol("model.predict()[%d] differs from states[%d].predict" % (i, i), "predict_list", st)
+            kp = state.kernel.get_params()
+            got_ib = [float(kp["inv_bw%d" % j]) for j in range(d)] if d > 1 else [float(kp["inv_bw"])]
+            if not (np.allclose(got_ib, ref.ib, rtol=1e-9) and abs(float(kp["covariance_scale"]) - ref.cs) <= 1e-9 * ref.cs):
+                viol("the kernel of state %d reports parameters %s, its hyper-parameter sample is %s"
+                     % (i, got_ib + [float(kp["covariance_scale"])], list(ref.ib) + [ref.cs]), "state_params", st)
+    model.fit({"features": X.copy(), "targets": y.copy()})
+    check_all(X, y, "fit")
+    Xn, yn = rows(spec["extra"])
+    X2, y2 = np.vstack([X, Xn]), np.vstack([y, yn])
+    model.recompute_states({"features": X2.copy(), "targets": y2.copy()})
+    check_all(X2, y2, "recompute_states")
+    ctx.count(("gpm", spec), nontrivial=True)
